@@ -51,6 +51,22 @@ impl FileOperations for WriteAheadLog {
         let fs_block_size = FileSystem::block_size(&path)?;
         let default_block_size = WAL_BLOCK_SIZE.next_multiple_of(fs_block_size);
 
+        // A log that was truncated (checkpoint, recovery) and not written since is
+        // empty on disk: there is nothing to read, start from a fresh header.
+        if file.metadata()?.len() == 0 {
+            let header = BlockZero::alloc(0, default_block_size);
+            file.seek(SeekFrom::Start(0))?;
+            file.write_all(header.as_ref())?;
+            return Ok(Self {
+                header,
+                current_block: None,
+                flush_queue: VecDeque::new(),
+                file,
+                block_size: default_block_size,
+                flushed_blocks: 0,
+            });
+        }
+
         // Read block 0 (global header)
         let mut header_buf: BlockZero = BlockZero::new(default_block_size);
         file.seek(SeekFrom::Start(0))?;
